@@ -28,7 +28,7 @@ fn spec(tier: Tier) -> CheckSpec {
 		property: "C14",
 		level: "exploration",
 		rule: format!(
-			"exhaustive: for each writer, every value of: each of {} format-hostile atoms as a string value, as a key, {} as key/value pairs, every tree of depth <= 2 and width <= 2 over {{number, string, true, null, [], {{}}}}, and hostile atoms at every nesting position; restricted per format to its domain (TOML: objects without null; XML: JSONML shapes with name-safe tags/attribute names and hostile texts/attribute values; INI: main/sections of scalars and arrays of scalars over INI-safe atoms), multi-line strings from the block-scalar-safe class. Writers and options: std.manifestYamlDoc x indent_array_in_object x quote_keys, std.manifestYamlStream x c_document_end, CLI -f yaml x --line-padding {{1,2,4}}, CLI -y; std.manifestToml, std.manifestTomlEx with indent '' and tab, CLI -f toml; std.manifestPython, std.manifestPythonVars; std.manifestXmlJsonml, CLI -f xml-jsonml; std.manifestIni, CLI -f ini. Oracle: PyYAML safe loader, tomllib, ast.literal_eval, ElementTree, a line reader for INI: the parsed data equals the source value (strings code point for code point, numbers by value, booleans/null/strings kept apart, sequence order). One out-of-domain value per rule (null/function in TOML, function anywhere, non-JSONML shapes, non-INI shapes) must be an error. non-trivial = distinct (writer, options, value) that produces text",
+			"exhaustive: for each writer, every value of: each of {} format-hostile atoms as a string value, as a key, {} as key/value pairs, every tree of depth <= 2 and width <= 2 over {{number, string, true, null, [], {{}}}}, hostile atoms at every nesting position, and 40 YAML 1.1 keyword / special-number spellings in every letter case as values and keys; restricted per format to its domain (TOML: objects without null; XML: JSONML shapes with name-safe tags/attribute names and hostile texts/attribute values; INI: main/sections of scalars and arrays of scalars over INI-safe atoms), multi-line strings from the block-scalar-safe class. Writers and options: std.manifestYamlDoc x indent_array_in_object x quote_keys, std.manifestYamlStream x c_document_end, CLI -f yaml x --line-padding {{1,2,4}}, CLI -y; std.manifestToml, std.manifestTomlEx with indent '' and tab, CLI -f toml; std.manifestPython, std.manifestPythonVars; std.manifestXmlJsonml, CLI -f xml-jsonml; std.manifestIni, CLI -f ini. Oracle: PyYAML safe loader, tomllib, ast.literal_eval, ElementTree, a line reader for INI: the parsed data equals the source value (strings code point for code point, numbers by value, booleans/null/strings kept apart, sequence order). One out-of-domain value per rule (null/function in TOML, function anywhere, non-JSONML shapes, non-INI shapes) must be an error. non-trivial = distinct (writer, options, value) that produces text",
 			ATOMS.len(),
 			tier.q("all pairs over a 16-atom subset", "all pairs"),
 		),
@@ -45,6 +45,9 @@ fn spec(tier: Tier) -> CheckSpec {
 
 pub const ATOMS: [&str; 52] = [
 	"", " ", "a", "a b", "\"", "'", "\\", "#", ":", ": ", "-", "- ", "=", "[", "]", "{", ",", "&", "*", "!", "|", ">", "%", "@", "\t", "\u{1}", "\u{7f}", "é", "😀", "yes", "No", "on", "~", "null", "true", "1", "1.0", "1e3", "0x1f", "0o7", "1_000", ".5", ".inf", "2001-01-01", "12:30", "<<", "---", "a: b", " a", "a ", "\u{80}", "\u{85}",
+];
+const YAML_WORDS: [&str; 40] = [
+	"y", "Y", "yes", "Yes", "YES", "n", "N", "no", "NO", "true", "True", "TRUE", "false", "False", "FALSE", "on", "On", "ON", "off", "Off", "OFF", "null", "Null", "NULL", ".inf", ".Inf", ".INF", "-.inf", "-.INF", "+.inf", ".nan", ".NaN", ".NAN", "0b101", "0o17", "017", "1:30:00", "-0x1F", "1e3", "+1",
 ];
 const MULTILINE: [&str; 5] = ["a\nb", "a\nb\n", "a\n\nb", "é\n#x\n", "- a\n: b"];
 /// atoms used for the quick pair grid
@@ -68,6 +71,12 @@ fn generic_values(tier: Tier, with_null: bool) -> Vec<Value> {
 		out.push(json!([a]));
 		out.push(obj1("a", obj1(a, json!([a]))));
 		out.push(json!([[a], obj1(a, s(a))]));
+	}
+	// every YAML 1.1 keyword and special float spelling, as a value and as a key
+	for a in YAML_WORDS {
+		out.push(obj1("k", s(a)));
+		out.push(obj1(a, json!(1)));
+		out.push(json!([a, a]));
 	}
 	for m in MULTILINE {
 		out.push(obj1("k", s(m)));
